@@ -1,6 +1,7 @@
 import TonicModel.Lemmas.FramingWire
 import TonicModel.Lemmas.FramingDecLimit
 import TonicModel.Lemmas.FramingReserve
+import TonicModel.Lemmas.LimitCfg
 /-
 C06 — Message size limits are enforced exactly and without collateral loss.
 -/
@@ -271,5 +272,75 @@ example :
   simp only [List.mem_cons, List.not_mem_nil, or_false] at hx
   subst hx
   simp [SentOk, wireOf, idCodec, DecCfg.limit]
+
+/-! ### The limits as configuration: one `Grpc` value, a history of statements and calls (`lim.seq`) -/
+
+open LimitProg in
+/-- **The limit in force is the one asked for last.**  After ANY sequence of configuration statements
+(`max_decoding_message_size`, `max_encoding_message_size`, `apply_max_message_size_config` with any
+mix of `Some` / `None`, the compression builders, clones) the two limit fields of the `Grpc` value
+are what the last statement that mentioned each of them asked for, and `None` (4 MiB / no limit) if
+none did: no statement resets, swaps or forgets the other direction's limit. -/
+theorem C06_config_last_set_wins (ops : List Op) :
+    (ops.foldl LimitCfg.Cfg.step LimitCfg.Cfg.init).dec = Spec.LimitCfg.askedDec ops.reverse ∧
+    (ops.foldl LimitCfg.Cfg.step LimitCfg.Cfg.init).enc = Spec.LimitCfg.askedEnc ops.reverse := by
+  simpa [LimitCfg.Lemmas.Agree] using LimitCfg.Lemmas.agree_foldl ops _ [] LimitCfg.Lemmas.agree_init
+
+open LimitProg in
+/-- **A `server::Grpc` value through any history.**  For every program of configuration statements
+and calls of all four shapes (each call carrying at least one message each way, any number of them,
+oversized ones at any position), every call is answered as the property demands under the limits in
+force AT THAT CALL — read off the program text by the oracle: a request message is accepted iff
+within the decoding limit asked for last (4 MiB if never), an oversized one gives OUT_OF_RANGE (a
+streaming handler having received exactly the messages before it); the response delivers exactly
+the messages before the first one over the encoding limit asked for last, then OUT_OF_RANGE.
+Earlier calls — refused or not — and re-configuration after use leave nothing behind. -/
+theorem C06_limit_program_server (prog : List Stmt) (hwf : WellFormed prog = true) :
+    LimitCfg.runServer LimitCfg.Cfg.init prog = Spec.LimitCfg.runServer [] prog :=
+  LimitCfg.Lemmas.runServer_eq prog _ [] LimitCfg.Lemmas.agree_init hwf
+
+open LimitProg in
+/-- **A `client::Grpc` value through any history** (clones included): as
+`C06_limit_program_server`, with the directions exchanged — requests meet the encoding limit (the
+transport receives exactly the messages before the first oversized one, the call fails
+OUT_OF_RANGE), responses the decoding limit. -/
+theorem C06_limit_program_client (prog : List Stmt) (hwf : WellFormed prog = true) :
+    LimitCfg.runClient LimitCfg.Cfg.init prog = Spec.LimitCfg.runClient [] prog :=
+  LimitCfg.Lemmas.runClient_eq prog _ [] LimitCfg.Lemmas.agree_init hwf
+
+/-- **The per-message decisions of the configuration model are the codec's.**  `decRefusesLen d`
+is `decode_chunk`'s answer to a prefix announcing that length under `max_message_size = d`
+(OUT_OF_RANGE at the prefix iff it says so), and `encRefusesLen e` is `finish_encoding`'s answer to
+a serializable message with that payload length under `max_message_size = e`. -/
+theorem C06_limit_decisions_are_the_codecs (cd : Codec α) :
+    (∀ (cfg : DecCfg) (a b c d : UInt8) (rest : Bytes) (tr : Option Tr),
+      (Dec.decodeChunk cd cfg ⟨0 :: a :: b :: c :: d :: rest, .hdr, tr⟩).2 = .fail ⟨11, .tooLargeDec⟩
+        ↔ LimitCfg.decRefusesLen cfg.maxSize (readU32 a b c d) = true) ∧
+    (∀ (cfg : EncCfg) (m : α), cd.serFail m = false →
+      (encodeErr cd cfg m = some ⟨11, .tooLargeEnc⟩
+        ↔ LimitCfg.encRefusesLen cfg.maxSize (Framing.payload cd cfg m).length = true)) := by
+  refine ⟨fun cfg a b c d rest tr => ?_, fun cfg m hm => ?_⟩
+  · have hl : (({ enc := none, maxSize := cfg.maxSize, dir := .request } : DecCfg).limit) = cfg.limit := rfl
+    simp only [LimitCfg.decRefusesLen, hl, decide_eq_true_eq]
+    constructor
+    · intro h
+      by_cases hover : readU32 a b c d > cfg.limit
+      · exact hover
+      · exact absurd h (C06_within_limit_not_refused cd cfg 0 a b c d rest tr (Or.inl rfl) (by omega))
+    · intro hover
+      rw [C06_oversize_refused_at_prefix cd cfg 0 a b c d rest tr (Or.inl rfl) hover]
+  · rw [(C06_encode_limit cd cfg m).2.1]
+    simp only [hm, true_and, LimitCfg.encRefusesLen]
+    cases cfg.maxSize <;> simp
+
+/- Non-vacuity: a well-formed program with re-configuration after use, a refused call in the middle
+and an oversized message in second position of a streaming request. -/
+example :
+    let prog : List LimitProg.Stmt :=
+      [.op (.setDec 5), .op (.apply none (some 7)), .call ⟨.unary, false, [5], [7]⟩, .call ⟨.unary, false, [6], [7]⟩,
+       .op (.setDec 6), .op .clone, .call ⟨.streaming, false, [6, 7, 1], [7, 8, 1]⟩, .call ⟨.serverStreaming, false, [6], [7, 8, 1]⟩]
+    LimitProg.WellFormed prog = true ∧
+    LimitCfg.runServer LimitCfg.Cfg.init prog = [⟨0, 1, 1, 1⟩, ⟨11, 0, 0, 0⟩, ⟨11, 1, 1, 0⟩, ⟨11, 1, 1, 1⟩] := by
+  decide
 
 end C06
